@@ -107,7 +107,10 @@ func sgForeignCodecs(r *vfRand, kind string, st *sgPTState) []sgFCodec {
 				"level-asymmetry-allowed=1;packetization-mode=0;profile-level-id=42e01f",
 				"level-asymmetry-allowed=1;packetization-mode=1;profile-level-id=4d001f",
 				"level-asymmetry-allowed=1;packetization-mode=1;profile-level-id=640032",
-				"level-asymmetry-allowed=1;packetization-mode=0;profile-level-id=42001f"}), fb: fb[:r.Intn(3)]})
+				"level-asymmetry-allowed=1;packetization-mode=0;profile-level-id=42001f",
+				// the same profile and packetization as an entry above, at another level
+				"level-asymmetry-allowed=1;packetization-mode=1;profile-level-id=42e028",
+				"level-asymmetry-allowed=1;packetization-mode=1;profile-level-id=640028"}), fb: fb[:r.Intn(3)]})
 			if r.Bool(0.4) {
 				out = append(out, sgFCodec{pt: pt(), name: "rtx/90000", fmtp: fmt.Sprintf("apt=%d", v2)})
 			}
